@@ -65,7 +65,7 @@ def chains(tier, rng):
     out = ["p", "g", "c", "m", "pm", "mm", "pdm", "dm", "pt", "ps", "px", "pn", "pmp", "gm", "cm", "cc", "gc", "cg",
            "Gp", "pGp", "pGpGp", "GpGpGp", "pGm", "Gm", "pGdm", "gGpc", "cGpg", "pUp", "UpGp", "GpUp", "pUm",
            "ppGppGpp", "pGppm", "ccGpcc", "ggGpgg"]
-    n = 12 if tier == "quick" else 150
+    n = 12 if tier == "quick" else 45
     for _ in range(n):
         ln = rng.randint(1, 7)
         s, prev_plain = "", True
